@@ -58,7 +58,7 @@ Print Assumptions C05_force.
 Theorem C05_schedule : forall (c : cfgR) (hist : list eventR),
   cfg_ok c -> history_ok c hist ->
   st_new (final_state Rops c hist) = s_pend (spec_run c hist) /\
-  (c_keep c = true -> st_old (final_state Rops c hist) = s_tab (spec_run c hist)) /\
+  (c_keep (final_cfg c hist) = true -> st_old (final_state Rops c hist) = s_tab (spec_run c hist)) /\
   Dropped (fun _ => True) (s_tab (spec_run c hist)) (st_old (final_state Rops c hist)) /\
   st_geom (final_state Rops c hist) = s_geom (spec_run c hist).
 Proof. exact schedule_holds. Qed.
